@@ -226,6 +226,7 @@ NOT_APPLICABLE = {
 
 # clauses added after the first version of each check (red-team misses, defects found); appended to the texts above
 ADDENDA = {
+    "C14": " Also: the value returned for a parameterised gate is the table function's result for every angle (no special-cased angle).",
     "C16": " Also: has_signature is an equality of the whole signature (no is_some / len / prefix comparisons of a component).",
     "C28": " Also: exactly JUMP, JUMP-WHEN, JUMP-UNLESS and HALT (and LABEL, which starts the next one) close a block.",
     "C22": " Also: the BlockStart edge of a classical instruction is decided by whether a memory edge was actually drawn into it (flag cleared under the self-edge guard, or computed from that comparison).",
@@ -234,7 +235,7 @@ ADDENDA = {
     "C04": " Also: the literal rule shared with C02; positions printed with format_complex need a parser that accepts a sign and a sum (CALL immediates: sign repaired, two-part values a known finding); an expression printed directly after a qubit list is grouped by the writer for every expression kind whose text starts with a token the qubit parser accepts (DELAY, repaired twice); a to_quil()/to_quil_or_debug() call on a value of generic type inside a flag-taking helper counts as one on a placeholder-carrying value.",
     "C05": " Also: a literal is negated only under a test of the sign token being Operator::Minus; the float Eq/Hash helpers used for interning Expression numbers are exact (no ordering comparison, arithmetic or tolerance). Also: after the digits of an integer, '.', 'e' and 'E' all continue the literal as a real number.",
     "C06": " Also: taking a name apart (split/strip/truncate family) before storing it counts as normalisation (one named exception: Pauli words decoded into PauliGate values). Also: nothing on the parse paths builds a char from a single byte or code unit.",
-    "C07": " Also: no writer re-processes the serialized text of a nested value (split/lines/replace/trim): repaired for DEFCIRCUIT bodies. Also: no lexer or quoting function builds a char from a single byte.",
+    "C07": " Also: no writer re-processes the serialized text of a nested value (split/lines/replace/trim): repaired for DEFCIRCUIT bodies. Also: no lexer or quoting function builds a char from a single byte. The text-reprocessing rule also covers the helpers shared by the writers (every function taking the fall_back_to_debug flag).",
     "C08": " Also: in every function that builds, merges, filters or rebuilds a Program store, no order-scrambling call (swap_remove, sort, reverse, ...) is applied to an insertion-ordered container and no insertion-ordered container is filled from an iteration over a hash-ordered one.",
     "C09": " Also: CalibrationSet's backing vector is added to only by `replace`; every section of both listings is appended unconditionally. Also: only add_instruction (and the whitelisted merge of two programs) appends to the body; a PRAGMA is moved to the extern store only under an exact `name == EXTERN`.",
     "C10": " Also: the rebuild covers each qubit-bearing sub-store (gate and measure calibrations separately), also when the cache is filled through a local collection; replacing a qubit-bearing definition triggers a rebuild (repaired). Also: content merged from another Program must be matched by a rebuild, a union with that program's cache, or add_instruction(s) fed from the same store; a Program literal that takes over another value's cache takes every qubit-bearing store from that value too or rebuilds; a hand-written rebuild reads every Qubit-holding field of each definition type it walks.",
